@@ -389,6 +389,16 @@ fn saturating<T: KS>(out: &mut Out, stats: &mut Stats, thorough: bool) {
         reads.push(Read { seq: vec![3u8; 250 + k - 1], exts: 0x11, lab: 2 });
     }
     reads.push(Read { seq: vec![1u8; 100 + k - 1], exts: 0, lab: 3 });
+    // the LAST observations of the saturated k-mer bring flanking bases no earlier observation had (C . A^K . G, and
+    // boundary extensions on a bare A^K): the extension set is the union over ALL observations, also those beyond
+    // the 65535th
+    {
+        let mut r = vec![1u8];
+        r.extend(vec![0u8; k]);
+        r.push(2u8);
+        reads.push(Read { seq: r, exts: 0, lab: 4 });
+        reads.push(Read { seq: vec![0u8; k], exts: 0x84, lab: 5 });
+    }
     let size_of = std::mem::size_of::<(T, u8)>();
     for (stranded, thr, mem, unit) in [
         (false, 1usize, 1usize, 0usize),
